@@ -58,6 +58,7 @@ func (fg *FnGen) monitorBefore(fr *Frame, d callDesc, args []*Term, argTypes []t
 				continue
 			}
 			env := fg.baseEnv(fr, st)
+			fg.bindLocalsHere(fr, env)
 			for i, n := range r.ArgBind {
 				if i < len(args) && n != "_" {
 					var ty types.Type
@@ -91,6 +92,7 @@ func (fg *FnGen) monitorAfter(fr *Frame, d callDesc, args, res []*Term, argTypes
 				continue
 			}
 			env := fg.baseEnv(fr, st)
+			fg.bindLocalsHere(fr, env)
 			if len(r.Rets) == 1 && len(res) > 0 {
 				env.vars[r.Rets[0]] = CVal{T: res[len(res)-1], Ty: d.sig.Results().At(len(res) - 1).Type()}
 			} else {
@@ -163,4 +165,17 @@ func mentionsCalleeGhost(ct *Contract, err error) bool {
 		}
 	}
 	return false
+}
+
+// bindLocalsHere: source-level locals of the function under verification visible at the current program point
+// (parameters and ghosts win over locals of the same name).
+func (fg *FnGen) bindLocalsHere(fr *Frame, env *Env) {
+	if !fr.top || fr.locals == nil || fr.curBlock == nil {
+		return
+	}
+	for ln, lv := range fr.locals[fr.curBlock] {
+		if _, taken := env.vars[ln]; !taken && lv.T != nil {
+			env.vars[ln] = lv
+		}
+	}
 }
